@@ -1195,7 +1195,10 @@ fn fuzz_phase<P: Property>(
         }
         if let Ok(rd) = std::fs::read_dir(dir.join("found")) {
             for e in rd.flatten() {
-                found_files.push(e.path());
+                let name = e.file_name().to_string_lossy().to_string();
+                if name.ends_with(".json") && !name.ends_with(".shrunk.json") {
+                    found_files.push(e.path());
+                }
             }
         }
         found_files.sort();
@@ -1209,9 +1212,37 @@ fn fuzz_phase<P: Property>(
                         continue;
                     }
                     confirmed += 1;
-                    if let Ok(case) = load_replay_case(f) {
-                        let path = write_replay(id, &case, &sig, &detail);
-                        sup.violations.push((sig, path, format!("(found by the coverage-guided phase, target {})\n{}", target, detail)));
+                    // shrink through the strategy (the fuzzer does not shrink); fall back to the case as found
+                    let bin = f.with_extension("bin");
+                    let shrunk_path = f.with_extension("shrunk.json");
+                    let mut reported = false;
+                    if target == "prop" && bin.exists() && confirmed <= 3 {
+                        let st = Command::new(std::env::current_exe().expect("current_exe"))
+                            .arg("fuzzshrink")
+                            .arg(id)
+                            .arg(&cfg_path)
+                            .arg(&bin)
+                            .arg(&sig)
+                            .arg(&shrunk_path)
+                            .env("VERIF_QUIET_PANICS", "1")
+                            .stdout(Stdio::null())
+                            .stderr(Stdio::null())
+                            .status();
+                        if matches!(st, Ok(s) if s.success()) {
+                            if let Ok(v) = std::fs::read(&shrunk_path).map_err(|e| e.to_string()).and_then(|b| serde_json::from_slice::<Value>(&b).map_err(|e| e.to_string())) {
+                                let case = v.get("case").cloned().unwrap_or(Value::Null);
+                                let d = v.get("detail").and_then(|d| d.as_str()).unwrap_or("").to_string();
+                                let path = write_replay(id, &case, &sig, &d);
+                                sup.violations.push((sig.clone(), path, format!("(found by the coverage-guided phase, target {}, shrunk through the strategy)\n{}", target, d)));
+                                reported = true;
+                            }
+                        }
+                    }
+                    if !reported {
+                        if let Ok(case) = load_replay_case(f) {
+                            let path = write_replay(id, &case, &sig, &detail);
+                            sup.violations.push((sig, path, format!("(found by the coverage-guided phase, target {})\n{}", target, detail)));
+                        }
                     }
                 }
                 Isolated::Crashed { status, stderr_tail } => {
